@@ -42,21 +42,46 @@ def _vscale(v):
 fs_model.VSCALE = _vscale
 
 
-class NetFault(Exception):
-  pass
+import requests as _real_requests
+
+
+class NetFault(_real_requests.exceptions.ConnectionError, ConnectionError):
+  """A dropped connection: an instance of the exception types real code would name in an `except` clause."""
+
+
+class HttpFault(_real_requests.exceptions.HTTPError):
+  """raise_for_status() on a 4xx/5xx answer."""
+
+
+class ModelGap(Exception):
+  """The code under test used a part of an API that the environment model does not provide: no verdict."""
+
+
+MODEL_NAMES = ('_Lzma', 'Net', 'Resp', 'Raw', '_Writer', '_Reader', 'OSFacade', 'OSPathFacade', '_Builder', '_SqliteStub', '_FSProxy', 'ModelFS', 'DiskFS')
+
+
+def is_model_gap(e):
+  return isinstance(e, NotImplementedError) or (isinstance(e, AttributeError) and any(("'%s'" % n) in str(e) for n in MODEL_NAMES))
 
 
 class Net:
   """requests model: the body arrives in blocks; raw.read may raise at a chosen block."""
 
+  exceptions = _real_requests.exceptions
+  HTTPError = _real_requests.HTTPError
+  ConnectionError = _real_requests.ConnectionError
+
   def __init__(self, fs):
     self.fs = fs
     self.calls = 0
     self.fail_block = -1
+    self.http_error = False      # answer the next GET with 403 and an error page
 
   def get(self, url, stream=False):
     self.calls += 1
     net = self
+    refused, self.http_error = self.http_error, False
+    error_page = b'<html>403 Forbidden</html>'
 
     class Raw:
       nread = 0
@@ -67,17 +92,23 @@ class Net:
           raise NetFault('connection reset')
         k = self.nread
         self.nread += 1
+        if refused:
+          return error_page if k == 0 else b''
         if k >= len(PIECES):
           return b''
         piece, v = PIECES[k]
         return fs_model.VBytes(piece, v)
 
     class Resp:
-      headers = {'content-length': str(VLEN)}
+      headers = {'content-length': str(len(error_page) if refused else VLEN)}
       raw = Raw()
+      status_code = 403 if refused else 200
+      reason = 'Forbidden' if refused else 'OK'
+      ok = not refused
 
       def raise_for_status(self):
-        pass
+        if refused:
+          raise HttpFault('403 Client Error: Forbidden for url: ' + url)
 
       def close(self):
         pass
@@ -206,6 +237,8 @@ def scenario_cifar(fs_factory, crashes, cut):
       except fs_model.Crash:
         done = False
       except Exception as e:   # pylint: disable=broad-except
+        if is_model_gap(e):
+          raise ModelGap('%s: %s' % (type(e).__name__, e))
         violations.append('a later call raised %s: %s' % (type(e).__name__, str(e)[:80]))
         break
       bad = cache_state_ok(fs)
@@ -261,14 +294,17 @@ def scenario(fs_factory, crashes, cut, net_fail):
   attempts = list(crashes) + [-1]
   for c in attempts:
     fs.arm(c, cut)
-    _NET.fail_block = net_fail if first else -1
+    _NET.fail_block = net_fail if (first and net_fail != 4) else -1
+    _NET.http_error = first and net_fail == 4
     first = False
     try:
       cpath, dpath = fetch()
       done = True
-    except (fs_model.Crash, NetFault):
+    except (fs_model.Crash, NetFault, HttpFault):
       done = False
     except Exception as e:   # pylint: disable=broad-except
+      if is_model_gap(e):
+        raise ModelGap('%s: %s' % (type(e).__name__, e))
       violations.append('a later call raised %s: %s' % (type(e).__name__, str(e)[:80]))
       break
     bad = cache_state_ok(fs)
@@ -336,8 +372,9 @@ def cache1(c1: int, cut: int) -> bool:
 
 def cache_net(net_fail: int, c2: int) -> bool:
   """
-  A network fault at block `net_fail` in the first attempt, then (optionally) a crash in the second, then a clean call.
-  pre: 0 <= net_fail <= 3
+  A network fault at block `net_fail` (4: the server answers 403 with an error page) in the first attempt, then (optionally)
+  a crash in the second, then a clean call.
+  pre: 0 <= net_fail <= 4
   pre: -1 <= c2 <= NEFF
   post: __return__
   """
